@@ -532,6 +532,8 @@ func (s *sharedEntryAttributes) getRegularDeletes(deletes []DeleteEntry, aggrega
 					if err != nil {
 						return nil, err
 					}
+					// the delete must address the old case element, not the container that holds the choice
+					path.Elem = append(path.Elem, &sdcpb.PathElem{Name: oldBestCaseName})
 					deletes = append(deletes, NewDeleteEntryImpl(path, append(s.Path(), oldBestCaseName)))
 				}
 			}
